@@ -53,23 +53,51 @@ def o71(ctx):
                         extracted=tm.show(to_term(order))[:160])
         j = to_term(inner.extra["elem"])
         stores = [e for e in it.events if e.kind == "store" and e.fn == Q1 and e.name == "elementwise"]
-        # role, not name: the removal store clears a keep-flag array (loop-carried) through a mask; the other store clears
-        # element j of that mask
-        removal = [e for e in stores if to_term(e.args[1]) != j and tm.cval(to_term(e.args[2])) is False
-                   and tm.show(to_term(e.args[0])).startswith("loopvar:")]
-        selfex = [e for e in stores if e not in removal]
-        if len(removal) != 1:
+        # role, not name: the keep-flag array is the loop-carried array the stores of one iteration act on; its value after the
+        # iteration is evaluated element-wise for the current particle (index j) and for any other particle, over a truth table of
+        # the old flag and of the mask predicate (so mask[j] = False before the store and keep[j] = True after it are the same)
+        lvs = {n for e in stores for n in tm.walk(to_term(e.args[0])) if n.op == "call" and str(n.args[0]).startswith("loopvar:")}
+        if len(lvs) != 1:
+            raise Unsupported("removal store <keep flags>[<mask>] = False not recognised", fn)
+        LV = next(iter(lvs))
+        keep_stores = [e for e in stores if any(n == LV for n in tm.walk(to_term(e.args[0])))]
+        removal = [e for e in keep_stores if to_term(e.args[1]) != j]
+        if len(removal) != 1 or any(tm.cval(to_term(e.args[2])) not in (True, False) for e in keep_stores):
             raise Unsupported("removal store <keep flags>[<mask>] = False not recognised", fn)
         rem = removal[0]
-        mask = to_term(rem.args[1])
-        # (b) self exclusion
-        ctx.count(1)
-        inner_mask = mask
-        if mask.op == "call" and mask.args[0] == "setelem" and mask.args[2] == j and tm.cval(mask.args[3]) is False:
-            inner_mask = mask.args[1]
-        else:
+        atoms = []
+
+        def mask_at(mt, self_case, env):
+            if mt.op == "call" and mt.args[0] == "setelem" and mt.args[2] == j and tm.cval(mt.args[3]) in (True, False):
+                return tm.cval(mt.args[3]) if self_case else mask_at(mt.args[1], self_case, env)
+            if mt.op == "not":
+                return not mask_at(mt.args[0], self_case, env)
+            if mt not in atoms:
+                atoms.append(mt)
+            return env[atoms.index(mt)]
+
+        def after(self_case, k, env):
+            st = k
+            for e in keep_stores:
+                ix, val = to_term(e.args[1]), tm.cval(to_term(e.args[2]))
+                if ix == j:
+                    st = val if self_case else st
+                elif mask_at(ix, self_case, env):
+                    st = val
+            return st
+
+        after(False, True, [False] * 8)  # collects the predicate atoms
+        if len(atoms) != 1:
+            raise Unsupported("removal mask is not a single predicate", fn)
+        inner_mask = atoms[0]
+        # (b) self exclusion: a kept current particle stays kept whatever the predicate says about itself
+        ctx.count(2, {"stores on the keep flags in one iteration": len(keep_stores)})
+        if not all(after(True, True, [b_]) is True for b_ in (True, False)):
             ctx.finding(Q1, rem.node, "the current particle must be excluded from its own removal set (mask[j] = False)", rem.node, m,
-                        mask=tm.show(mask)[:160])
+                        mask=tm.show(to_term(rem.args[1]))[:160])
+        if not all(after(False, k_, [b_]) is (k_ and not b_) for k_ in (True, False) for b_ in (True, False)):
+            ctx.finding(Q1, rem.node, "any other particle must be removed iff the predicate holds for it and must keep its flag otherwise "
+                        "(removed particles never come back)", rem.node, m)
         # (c) predicate: distance of complete positions < d
         cmp_ = inner_mask
         ctx.count(1, {"removal predicate": tm.show(no_sel(cmp_))[:200]})
